@@ -26,12 +26,16 @@ def disciplined_token(c, r, qi):
 def gen_case(rng, size=None, profile=None):
     """-> (header list, op list) ; profile aims the history at one region of the proof"""
     profile = profile or rng.choice(["mixed", "mixed", "mixed", "nonrun", "nstart", "churn",
-                                     "rst", "keys", "wrapless", "err"])
+                                     "rst", "keys", "wrapless", "err", "xres"])
     nres = rng.choice([1, 1, 2, 2, 3])
     modes = [rng.choice([0, 0, 0, 0, 1, 1, 2]) for _ in range(3)]
     if profile == "nonrun":
         modes = [0, 0, rng.choice([0, 1])]
     if profile == "nstart":
+        modes = [rng.choice([0, 1, 1]) for _ in range(3)]
+    if profile == "xres":
+        # one token on several resources: the RST / give-up paths that act on (session, token)
+        nres = rng.choice([2, 3])
         modes = [rng.choice([0, 1, 1]) for _ in range(3)]
     nstart = rng.choice([1, 1, 1, 1, 2, 3])
     nobs = rng.choice([1, 2, 2, 3, 4])
@@ -52,7 +56,9 @@ def gen_case(rng, size=None, profile=None):
         r = rng.randrange(nres)
         qi = rng.randrange(len(QUERIES)) if (profile == "keys" or rng.random() < 0.3) else 0
         q = QUERIES[qi]
-        if rng.random() < (0.35 if profile in ("keys", "churn") else 0.1):
+        if profile == "xres":
+            tok = rng.choice(["a1", "a2"])
+        elif rng.random() < (0.35 if profile in ("keys", "churn") else 0.1):
             tok = rng.choice(TOKENS)
         else:
             tok = disciplined_token(c, r, qi)
@@ -80,11 +86,14 @@ def gen_case(rng, size=None, profile=None):
              "keys": (0.40, 0.52, 0.64, 0.68, 0.72, 0.90, 0.92, 0.94, 0.95, 0.97, 0.98, 0.99),
              "wrapless": (0.10, 0.45, 0.80, 0.88, 0.92, 0.94, 0.96, 0.97, 0.98, 0.99, 0.995, 0.999),
              "err": (0.15, 0.38, 0.58, 0.66, 0.72, 0.76, 0.79, 0.82, 0.92, 0.95, 0.97, 0.99),
+             "xres": (0.12, 0.40, 0.62, 0.70, 0.86, 0.88, 0.94, 0.96, 0.97, 0.98, 0.99, 0.995),
              }[profile]
         if x < w[0]:
             ops.append(reg())
         elif x < w[1]:
             ops.append("chg:%d:%d" % (rng.randrange(nres), rng.choice([1, 1, 1, 2, 3, 7])))
+            if rng.random() < 0.5:
+                ops.append("io")
         elif x < w[2]:
             ops.append("io")
         elif x < w[3]:
